@@ -24,7 +24,13 @@ def handleC09 (j : Json) : Except String Json := do
   let flags := Jinns.Minibatch.resetFlags nEff m0 oracles
   let oracleOk := oracles.all (fun o => o.isPerm store0)
   let agree := batches == recs.map (·.batch) && flags == recs.map (·.reset)
-  let holds := Jinns.Holds.holdsC09 store0 b recs
+  -- optional "active": labels of the points with non-zero sampling probability (RAR generators);
+  -- the PRNG contract then also requires the active points to stay in the first nEff slots
+  let active ← (match j.getObjVal? "active" with
+    | .ok a => natList a
+    | .error _ => pure store0)
+  let oracleOk := oracleOk && (recs.all (fun r => !r.reset || (r.store.take nEff).isPerm active))
+  let holds := Jinns.Holds.holdsC09Active store0 active b recs
   pure <| Json.mkObj [
     ("model_batches", jNatMat batches), ("model_resets", jBools flags),
     ("oracle_contract", Json.bool oracleOk),
